@@ -185,6 +185,27 @@ def rule_store_close(ctx, r, which=("tracked jobs", "spec hashes")):
                 r.violation(con + f"::{name}", f"{label}: {msg}", cm.where)
             else:
                 n_ok += 1
+        # a whole invocation on a project that already has a state file: load (real initialiser), change, close - what is on disk afterwards is the table in memory
+        from .evalhelpers import eval_life_cycle
+        cyc = [("update(T)", [("update", "T")])] if label == "spec hashes" else [("submit(T)", [("submit", "T")])]
+        if label == "spec hashes":
+            cyc.append(("invalidate(A)", [("invalidate", "A")]))
+        for cname, script in cyc:
+            events, err, obj = eval_life_cycle(ctx, ckey, attr, dict(base), script)
+            if err is not None:
+                if "[not-modelled]" in err:
+                    continue
+                r.violation(con + f"::life-cycle {cname}", f"{label}: an invocation that loads an existing file, does {cname} and closes fails ({err})", cm.where)
+                continue
+            final = dict(getattr(obj, attr))
+            dumps = [e for e in events if e[0] == "dump"]
+            if not dumps:
+                r.violation(con + f"::life-cycle {cname}", f"{label}: on a project that already has a state file, an invocation that does {cname} writes nothing at close(): what this "
+                            "command recorded is lost (the first write on a fresh project may still work, later ones never happen)", cm.where)
+            elif dumps[-1][1] != final:
+                r.violation(con + f"::life-cycle {cname}", f"{label}: after load + {cname} the table in memory is {final} but close() saves {dumps[-1][1]}", cm.where)
+            else:
+                n_ok += 0
         if n_ok == len(scenarios):
             r.ok(con, f"{len(scenarios)} scenario(s): table saved atomically over {lpath.replace('⟦PROJ⟧', '<project>')}", cm.where)
 
